@@ -33,7 +33,7 @@ CHECKS = {
         "and get_T in amplitude and power mode with the model. dB = 10 log10 T and phase = arg A are real-analytic: tied by interval "
         "arithmetic in the same run."
         " The full sweep table get_full_data (what export writes) is read too, with sweeps that start at a symmetric point; dark pin pairs (T = 0, dB = -inf) are included; dB and phase are tied by one generated interval lemma per sample. The solved model carries a swept and a length-1 parameter; the parameter columns of every table are checked (broadcast), also after the caller has overwritten the arrays it passed in. After the first read-outs two names of the result are swapped by pin_mapping: every accessor (by name and by Pin object) must follow the new labels. Half of the read-out models carry modes on their pins (excitations keyed by name and by moded Pin object)."
-        " On every run harness/translate_readout.py translates the CURRENT source of get_A / get_T / get_PH / get_output / get_full_output / get_data / get_full_data / S2PD and of the block building the parameter columns to Gallina (symbolic execution, fail-closed) and coq/templates/ReadoutSrcProof.v proves the result equal to Readout.v's definitions for every model, excitation and sweep (10 theorems, closed). The stream also reads the named matrix S2PD() of models whose pins enter the pin dictionary in scrambled order.",
+        " On every run harness/translate_readout.py translates the CURRENT source of get_A / get_T / get_PH / get_output / get_full_output / get_data / get_full_data / S2PD and of the block building the parameter columns to Gallina (symbolic execution, fail-closed) and coq/templates/ReadoutSrcProof.v proves the result equal to Readout.v's definitions for every model, excitation and sweep (11 theorems, closed; print_S is covered too). The stream also reads the named matrix S2PD() of models whose pins enter the pin dictionary in scrambled order.",
    note="Trusted: Coq kernel + vm_compute; Bignums primitives for the executed instance; model Readout.v tied by sampled correspondence; "
         "pandas exercised, not verified; for dB/phase the Coq.Reals axioms and Interval. Follows the fixed code (F19).",
    technique="Coq proof (linearity/definitional laws) + source-to-Gallina translation of the read-out helpers proved equal to the model on every run + vm_compute correspondence; interval lemmas for dB and phase", design="§5 C15, §3.3"),
